@@ -52,7 +52,7 @@ NoMsg == [start |-> 0, extent |-> 0, method |-> <<>>, target |-> <<>>, vmaj |-> 
 Init0 == [phase |-> "start", pos |-> 1, msgs |-> <<>>, cur |-> NoMsg, remaining |-> 0,
           reason |-> "", rejectAt |-> 0, soft |-> <<>>, wait |-> FALSE,
           over |-> FALSE, between |-> FALSE, tight |-> FALSE, nearCount |-> FALSE,
-          pendUpgrade |-> FALSE, attributed |-> 0, tailFrom |-> 0, base |-> 0, pendLF |-> FALSE, rejPhase |-> ""]
+          pendUpgrade |-> FALSE, attributed |-> 0, tailFrom |-> 0, base |-> 0, pendLF |-> FALSE, rejPhase |-> "", headBody |-> FALSE]
 
 Terminal(s) == s.phase \in {"rejected", "undecided", "closed", "tunnel"}
 
@@ -95,16 +95,22 @@ TakeLine(q, pos, n, limit, lax) ==
             full |-> avail >= limit + 2]
 
 (* limit facts of one completed line of length len checked against `limit` *)
-NoteLen(s, len, cfg) ==
+\* between: a start line or header field line whose length lies between the two limits - the only lines
+\* for which it matters which of the two limits a reader applies (chunk-size and trailer lines are read
+\* by the payload parser with their own limit)
+NoteLen(s, len, cfg, headLine) ==
     LET lo == Min2(cfg.maxLine, cfg.maxField)
         hi == Max2(cfg.maxLine, cfg.maxField)
-    IN [s EXCEPT !.between = s.between \/ (len > lo /\ len <= hi + 1),
+    IN [s EXCEPT !.between = s.between \/ (headLine /\ len > lo /\ len <= hi + 1),
                  !.tight = s.tight \/ len = cfg.maxLine \/ len = cfg.maxField]
 
 (* ------------------------------------------------------------------------ *)
 (* Request line (RFC 9112 section 3): method SP request-target SP HTTP-version *)
 IsSchemeByte(b) == IsAlpha(b) \/ IsDigit(b) \/ b \in {43, 45, 46}
-IsRegNameByte(b) == IsAlpha(b) \/ IsDigit(b) \/ b \in {45, 46, 95, 126, 37, 33, 36, 38, 39, 40, 41, 42, 43, 44, 59, 61}
+IsRegNameByte(b) == IsAlpha(b) \/ IsDigit(b) \/ b \in {45, 46, 95, 126, 37, 33, 36, 38, 39, 40, 41, 42, 43, 44, 59, 61} \/ IsObsText(b)
+\* "xn--" labels (IDNA) and ports above 65535 are validated by the URL library (black box): exotic
+HasXn(h) == \E i \in 1..(Len(h) - 3) : Lower(h[i]) = 120 /\ Lower(h[i + 1]) = 110 /\ h[i + 2] = 45 /\ h[i + 3] = 45
+PortTooBig(p) == DecVal(p) > 65535
 IsIPLitByte(b) == IsHex(b) \/ b \in {58, 46}
 IsPlainHostByte(b) == IsAlpha(b) \/ IsDigit(b) \/ b \in {45, 46, 95}
 
@@ -121,14 +127,15 @@ AuthorityClass(a) ==
                 IN IF rb = 0 \/ Len(inside) = 0 \/ ~AllB(inside, IsIPLitByte) THEN "bad"
                    ELSE IF Len(after) = 0 THEN (IF at = 0 THEN "ok" ELSE "exotic")
                    ELSE IF after[1] # COLON \/ ~AllB(DropN(after, 1), IsDigit) THEN "bad"
-                   ELSE IF at # 0 \/ Len(after) > 6 \/ Len(after) = 1 THEN "exotic" ELSE "ok"
+                   ELSE IF at # 0 \/ Len(after) > 6 \/ Len(after) = 1 \/ PortTooBig(DropN(after, 1)) THEN "exotic" ELSE "ok"
             ELSE
                 LET c == LastIn(hp, 1, Len(hp), LAMBDA b : b = COLON)
                     host == IF c = 0 THEN hp ELSE Slice(hp, 1, c - 1)
                     port == IF c = 0 THEN <<>> ELSE DropN(hp, c)
                 IN IF Len(host) = 0 \/ ~AllB(host, IsRegNameByte) THEN "bad"
                    ELSE IF c # 0 /\ ~AllB(port, IsDigit) THEN "bad"
-                   ELSE IF at # 0 \/ ~AllB(host, IsPlainHostByte) \/ (c # 0 /\ (Len(port) = 0 \/ Len(port) > 5))
+                   ELSE IF at # 0 \/ ~AllB(host, IsPlainHostByte) \/ HasXn(host)
+                           \/ (c # 0 /\ (Len(port) = 0 \/ Len(port) > 5 \/ PortTooBig(port)))
                         THEN "exotic" ELSE "ok"
 
 \* absolute-form = scheme "://" authority [ path-abempty ] [ "?" query ]  (RFC 9112 3.2.2)
@@ -136,17 +143,18 @@ AbsFormClass(t) ==
     LET c == IndexOfByte(t, COLON)
         scheme == Slice(t, 1, c - 1)
         rest == DropN(t, c)
-    IN IF c < 2 \/ ~IsAlpha(t[1]) \/ ~AllB(scheme, IsSchemeByte) THEN "noform"
+    IN IF c < 2 \/ ~AllB(scheme, IsSchemeByte) THEN "noform"
        ELSE IF Len(rest) < 2 \/ rest[1] # 47 \/ rest[2] # 47 THEN "noform"
        ELSE LET r2 == DropN(rest, 2)
                 e == FirstIn(r2, 1, Len(r2), LAMBDA b : b \in {47, 63, 35})
                 auth == IF e = 0 THEN r2 ELSE Slice(r2, 1, e - 1)
-            IN AuthorityClass(auth)
+                k == AuthorityClass(auth)
+            IN IF k = "ok" /\ ~IsAlpha(t[1]) THEN "exotic" ELSE k      \* scheme = ALPHA *( ... ), RFC 3986 3.1
 
 \* authority-form = uri-host ":" port   (RFC 9112 3.2.3, CONNECT only)
 AuthorityFormOK(t) ==
     LET c == LastIn(t, 1, Len(t), LAMBDA b : b = COLON)
-    IN c > 1 /\ c < Len(t) /\ AllB(DropN(t, c), IsDigit) /\ AuthorityClass(t) # "bad"
+    IN c > 1 /\ c < Len(t) /\ AllB(DropN(t, c), IsDigit) /\ AuthorityClass(t) = "ok"
        /\ IndexOfByte(t, 64) = 0
 
 ParseRequestLine(line) ==
@@ -230,15 +238,11 @@ OtherSingletons ==      \* http_parser.py SINGLETON_HEADERS minus the three abov
      <<117,115,101,114,45,97,103,101,110,116>>}                           \* user-agent
 
 HasField(fields, lname) == \E i \in 1..Len(fields) : LowerSeq(fields[i][1]) = lname
-\* combined field value: all lines of that name joined with ", " (RFC 9110 5.3)
-RECURSIVE CombinedFrom(_, _, _)
-CombinedFrom(fields, lname, i) ==
-    IF i > Len(fields) THEN <<>>
-    ELSE LET rest == CombinedFrom(fields, lname, i + 1)
-         IN IF LowerSeq(fields[i][1]) = lname
-            THEN IF HasField(DropN(fields, i), lname) THEN fields[i][2] \o <<COMMA, SP>> \o rest ELSE fields[i][2]
-            ELSE rest
-Combined(fields, lname) == CombinedFrom(fields, lname, 1)
+\* combined field value: all lines of that name joined with ", " (RFC 9110 5.3); iterative (no deep recursion)
+Combined(fields, lname) ==
+    LET vals == SelectSeq(fields, LAMBDA f : LowerSeq(f[1]) = lname)
+    IN IF Len(vals) = 0 THEN <<>>
+       ELSE FoldLeft(LAMBDA acc, f : acc \o <<COMMA, SP>> \o f[2], vals[1][2], Tail(vals))
 CountField(fields, lname) == Cardinality({i \in 1..Len(fields) : LowerSeq(fields[i][1]) = lname})
 
 ValueOK(v, lax) ==
@@ -293,18 +297,19 @@ DecideFraming(s, cfg) ==
         upgrade == SeqHas(conn, L_upgrade) /\ Len(upv) > 0
         upSupported == upgrade /\ (LowerSeq(upv) = L_websocket \/ LowerSeq(upv) = L_tcp)
         clen == IF hasCL THEN DecVal(clv) ELSE 0
-        emptyBody == IF isReq THEN um = M_HEAD
+        \* framing of a request does not depend on its method (6.3); cfg.devHeadSkip = TRUE reads the stream
+        \* the way the unchanged parser does (HEAD request: body ignored) - used only to NAME that deviation
+        emptyBody == IF isReq THEN um = M_HEAD /\ cfg.devHeadSkip
                      ELSE (m.code >= 100 /\ m.code < 200) \/ m.code \in {204, 304} \/ ~cfg.withBody
         softTE10 == IF isReq /\ hasTE /\ v10 THEN <<Dev("TEonHTTP10Accepted")>> ELSE <<>>       \* 6.1: framing faulty
         \* "gzip, chunked": codings before a final chunked are legal syntax (6.1); the parser only requires
         \* chunked to be last (THREAT_MODEL 5.1 #1.8, same as llhttp) - permitted alternative
         softTEx == IF isReq /\ hasTE /\ Len(teParts) > 1 THEN <<Alt("TECodingsBeforeChunked")>> ELSE <<>>
-        softHead == IF isReq /\ um = M_HEAD /\ ((hasCL /\ clen > 0) \/ hasTE)
-                    THEN <<Dev("HeadRequestBodySkipped")>> ELSE <<>>  \* framing does not depend on the method, 6.3
+        headBody == isReq /\ um = M_HEAD /\ ((hasCL /\ clen > 0) \/ hasTE)
         softConn == IF isReq /\ um = M_CONNECT /\ ((hasCL /\ clen > 0) \/ hasTE) THEN <<Alt("ConnectWithBody")>> ELSE <<>>
         softKey1 == IF HasField(f, L_sec_ws_key1) THEN <<Alt("OldWebSocketKey")>> ELSE <<>>
         softTEe == IF isReq /\ teEmpty THEN <<Alt("TEEmptyElement")>> ELSE <<>>
-        s1 == AddSoft(s, softTE10 \o softTEx \o softHead \o softConn \o softKey1 \o softTEe)
+        s1 == [AddSoft(s, softTE10 \o softTEx \o softConn \o softKey1 \o softTEe) EXCEPT !.headBody = s.headBody \/ headBody]
         head(kind, chunked) == [m EXCEPT !.kind = kind, !.delivered = TRUE, !.close = close,
                                          !.upgrade = upgrade, !.chunked = chunked]
         done(mm) == \* message complete at the end of its head
@@ -380,7 +385,7 @@ StepStart(s, q, n, cfg0) ==
                       p == ParseRequestLine(line)
                   IN IF Len(line) > 0 /\ Len(line) <= cfg.maxLine /\ p.ok
                         /\ \E i \in 1..Len(p.soft) : p.soft[i].name = "TargetCTLAccepted"
-                     THEN AddSoft([NoteLen(s, Len(line), cfg) EXCEPT !.phase = "fields", !.pos = r.alt + 1, !.pendLF = FALSE,
+                     THEN AddSoft([NoteLen(s, Len(line), cfg, TRUE) EXCEPT !.phase = "fields", !.pos = r.alt + 1, !.pendLF = FALSE,
                                      !.cur = [NoMsg EXCEPT !.start = s.base + s.pos, !.extent = r.alt + 1 - s.pos,
                                                            !.method = p.method, !.target = p.target,
                                                            !.vmaj = p.vmaj, !.vmin = p.vmin, !.nlines = 1]],
@@ -398,7 +403,7 @@ StepStart(s, q, n, cfg0) ==
                  ELSE IF isReq THEN
                      LET p == ParseRequestLine(line)
                      IN IF ~p.ok THEN Reject(s, p.why)
-                        ELSE AddSoft([NoteLen(s, Len(line), cfg) EXCEPT !.phase = "fields", !.pos = r.next,
+                        ELSE AddSoft([NoteLen(s, Len(line), cfg, TRUE) EXCEPT !.phase = "fields", !.pos = r.next,
                                         !.cur = [NoMsg EXCEPT !.start = s.base + s.pos, !.extent = k, !.method = p.method,
                                                               !.target = p.target, !.vmaj = p.vmaj, !.vmin = p.vmin,
                                                               !.nlines = 1]], p.soft)
@@ -406,7 +411,7 @@ StepStart(s, q, n, cfg0) ==
                      IF StatusLineExotic(line) THEN Undecided(s, "StatusLineExotic")
                      ELSE LET p == ParseStatusLine(line)
                           IN IF ~p.ok THEN Reject(s, p.why)
-                             ELSE AddSoft([NoteLen(s, Len(line), cfg) EXCEPT !.phase = "fields", !.pos = r.next,
+                             ELSE AddSoft([NoteLen(s, Len(line), cfg, TRUE) EXCEPT !.phase = "fields", !.pos = r.next,
                                              !.cur = [NoMsg EXCEPT !.start = s.base + s.pos, !.extent = k, !.vmaj = p.vmaj,
                                                                    !.vmin = p.vmin, !.code = p.code, !.reason = p.reason,
                                                                    !.nlines = 1]], p.soft)
@@ -421,7 +426,7 @@ StepField(s, q, n, cfg0, trailer) ==
         total == Len(s.cur.fields) + Len(s.cur.trailers)
     IN CASE r.kind = "need" -> Wait(s)
          [] r.kind = "toolong" -> [RejectOver(s, IF trailer THEN "TrailerTooLong" ELSE "FieldTooLong")
-                                       EXCEPT !.between = cfg.maxField < cfg.maxLine]
+                                       EXCEPT !.between = ~trailer /\ cfg.maxField < cfg.maxLine]
          [] r.kind = "barelf" -> Reject(s, "BareLF")
          [] OTHER ->
               LET line == r.line
@@ -441,7 +446,7 @@ StepField(s, q, n, cfg0, trailer) ==
                           IN IF Len(joined) > cfg.maxField THEN RejectOver(s, "FoldedFieldTooLong")
                              ELSE IF ~ValueOK(TrimWS(joined), lax) THEN Reject(s, "FieldValueCTL")
                              ELSE LET fs == [flds EXCEPT ![Len(flds)] = <<last[1], TrimWS(joined), joined>>]
-                                      sx == NoteLen(s0, Len(line), cfg)
+                                      sx == NoteLen(s0, Len(line), cfg, ~trailer)
                                   IN IF trailer THEN [sx EXCEPT !.cur.trailers = fs] ELSE [sx EXCEPT !.cur.fields = fs]
                  ELSE
                      LET p == ParseFieldLine(line, lax)
@@ -453,7 +458,7 @@ StepField(s, q, n, cfg0, trailer) ==
                         ELSE
                             LET raw == LTrimWS(DropN(line, IndexOfByte(line, COLON)))
                                 fs == Append(flds, <<p.name, p.value, raw>>)
-                                sx == NoteLen(s0, Len(line), cfg)
+                                sx == NoteLen(s0, Len(line), cfg, ~trailer)
                                 s1 == IF trailer THEN [sx EXCEPT !.cur.trailers = fs] ELSE [sx EXCEPT !.cur.fields = fs]
                                 s2 == [s1 EXCEPT !.nearCount = s1.nearCount \/ (total + 1 + 3 > cfg.maxHeaders)]
                             IN IF ~lax /\ dup /\ lname \in OtherSingletons
@@ -477,7 +482,7 @@ StepChunkSize(s, q, n, cfg0) ==
     LET cfg == Lim(cfg0)
         r == TakeLine(q, s.pos, n, cfg.maxLine, cfg.lax)
     IN CASE r.kind = "need" -> Wait(s)
-         [] r.kind = "toolong" -> [RejectOver(s, "ChunkLineTooLong") EXCEPT !.between = cfg.maxLine < cfg.maxField]
+         [] r.kind = "toolong" -> RejectOver(s, "ChunkLineTooLong")
          [] r.kind = "barelf" -> Reject(s, "BareLF")
          [] OTHER ->
               LET k == r.next - s.pos
@@ -489,7 +494,7 @@ StepChunkSize(s, q, n, cfg0) ==
                   sT == IF Len(raw) > cfg.maxLine THEN [s EXCEPT !.tight = TRUE] ELSE s
               IN IF Len(r.line) > cfg.maxLine THEN RejectOver(s, "ChunkLineTooLong")
                  ELSE IF ~p.ok THEN Reject(s, "ChunkSize")
-                 ELSE LET s1 == AddSoft(Extent(NoteLen([sT EXCEPT !.pos = r.next], Len(r.line), cfg), k), p.soft)
+                 ELSE LET s1 == AddSoft(Extent(NoteLen([sT EXCEPT !.pos = r.next], Len(r.line), cfg, FALSE), k), p.soft)
                       IN IF p.size = 0 THEN [s1 EXCEPT !.phase = "trailers"]       \* last-chunk
                          ELSE [s1 EXCEPT !.phase = "cdata", !.remaining = p.size]
 
